@@ -14,7 +14,7 @@ CONSTANTS
   Bodies <- BodiesSized
   Steps = {500, 1000}
   MaxNow = 1500
-  MaxTx = 6
+  MaxTx = 5
   NParts = 1
 SPECIFICATION ISpec
 INVARIANT Conforms
